@@ -9,9 +9,9 @@ LEVEL = 'proof'
 EXPLANATION = ("Deductive (z3 / sign analysis on the extracted terms): Noh and Coggeshall 19 - positive density, non-negative p and e on every path, density and pressure rise across the shock in the direction the material crosses it; "
                "ideal-gas Riemann - (R1) the shock and rarefaction wave-curve functions are strictly monotone in the star pressure, (R2) the pattern-selection conditions put the root on the documented side of pl and pr "
                "(f(pl), f(pr) have the required signs), hence px >= p0 behind shocks and px <= p0 behind fans, shocks compress (rho* > rho0), every region state is positive, the fan similarity variable stays in (0,1] and "
-               "p, rho, u are monotone across each fan, wave speeds are ordered. Bounded stand-ins (run time, not proofs): Mader, SDRZ, EHEP, Su-Olson, Sedov, elastic-plastic piston on the real solvers.")
+               "p, rho, u are monotone across each fan, wave speeds are ordered. Mader rare() at the documented gamma = 3: every branch (constant state, transition cell, fan) positive, monotone in x and between the constant state and the fan value at the cell edge. Bounded stand-ins (run time, not proofs): Mader driver at default parameters, SDRZ, EHEP, Su-Olson, Sedov, elastic-plastic piston on the real solvers.")
 ASSUMPTIONS = ["cited lemma: a continuous strictly monotone function with f(a) <= 0 = f(px) has px >= a (R1 + R2 => side of the root)", "monotonicity of real powers (A3) for the fan variable",
-               "Mader (cell straddling the Taylor-wave tail), SDRZ, EHEP, Su-Olson, Sedov interior, piston ordering: bounded run-time checks only"]
+               "Mader: gamma = 3 only (the fan slope 1/(2 c_cj t) in rare() is specific to gamma = 3), sound-speed factor positive at the cell's rear edge (A(x1) > 0), -D/2 < u_piston <= D/4; the per-cell driver loop is covered pointwise (generic cell); SDRZ, EHEP, Su-Olson, Sedov interior, piston ordering: bounded run-time checks only"]
 
 
 def unit_hydro(key):
@@ -69,7 +69,16 @@ def unit_riemann(pat, fam):
             val = sgn * f.subs(px, p0)       # value of (u*_R - u*_L) at p = p0 ; root >= p0 iff value <= 0 (increasing)
             goal = (val <= 0) if rel == '>=' else (val >= 0)
             ga = ab.rel(sp.Implies(cond, goal))
-            o = core.prove_valid('%s/R2/root_%s_%s' % (base, rel, side), cr.HYPS + ab.lemmas, ga, goal_text='pattern %s selected  =>  (u*_R - u*_L)(%s) %s 0, i.e. px %s %s' % (pat, side, '<=' if rel == '>=' else '>=', rel, side))
+            gt = 'pattern %s selected  =>  (u*_R - u*_L)(%s) %s 0, i.e. px %s %s' % (pat, side, '<=' if rel == '>=' else '>=', rel, side)
+            o = core.prove_valid('%s/R2/root_%s_%s' % (base, rel, side), cr.HYPS + ab.lemmas, ga, goal_text=gt)
+            if o['status'] != 'discharged':
+                # the abstraction over-approximates: a failure there decides nothing. Search a counterexample of the concrete implication
+                # (sampling + margin descent, exact confirmation) and replay it on the real solver.
+                o2 = core.prove_valid('%s/R2/root_%s_%s' % (base, rel, side), cr.HYPS + [cond], goal, goal_text=gt)
+                if o2['status'] in ('refuted', 'discharged'): o = o2
+                if o['status'] == 'refuted' and o.get('cex_raw'):
+                    raw = o['cex_raw']; par = {n: float(sp.sympify(raw.get(n, 1))) for n in ('pl', 'rl', 'ul', 'gl', 'pr', 'rr', 'ur', 'gr')}
+                    o['replay'] = R2_NATIVE % dict(par=par, side=side, rel=rel, pat=pat)
             o.pop('cex_raw', None); O.append(o)
         return res
     hy = c.hyps
@@ -100,6 +109,108 @@ def unit_riemann(pat, fam):
             o = core.prove_valid('%s/shock%d/compressive:pressure' % (base, i), hy, sp.sympify(Fi['pressure']) >= sp.sympify(Fo['pressure']), goal_text='pressure behind the shock >= pressure ahead'); o.pop('cex_raw', None); O.append(o)
         O.extend(rk.ob_ordering(c, 'C17'))
     for o in O: o.pop('cex_raw', None)
+    return res
+
+
+R2_NATIVE = r"""
+import json, io, contextlib, warnings
+import numpy as np
+warnings.simplefilter('ignore')
+from exactpack.solvers.riemann.ep_riemann import IGEOS_Solver
+P = %(par)r
+par = dict(xmin=0.0, xd0=0.5, xmax=1.0, t=0.05, rl=P['rl'], ul=P['ul'], pl=P['pl'], gl=P['gl'], rr=P['rr'], ur=P['ur'], pr=P['pr'], gr=P['gr'])
+with contextlib.redirect_stdout(io.StringIO()):
+    s = IGEOS_Solver(**par); r = s(np.linspace(0.0, 1.0, 2001), 0.05)
+pat_built = str(s.soln_type).split('-')[-1]; ic = 1 if pat_built[0] == 'S' else 2
+Vc = float(np.array(s.Vregs)[ic]); xc = 0.5 + 0.05 * Vc
+with contextlib.redirect_stdout(io.StringIO()): px = float(s(np.array([xc - 1e-6]), 0.05)['pressure'][0])
+p0 = P['p' + %(side)r[1]]
+# pattern actually built by the solver: a wave is a shock when the solver lists a single speed for it
+out = {'px': px, 'p0': p0, 'pattern_selected_by_the_contract': %(pat)r, 'pattern_built_by_the_solver': pat_built}
+bad = (px < p0 * (1 - 1e-9)) if %(rel)r == '>=' else (px > p0 * (1 + 1e-9))
+# the admissibility consequence on the returned profile: across every pressure discontinuity pressure and density rise in the direction the material crosses
+x = r['position']; p = r['pressure']; d = r['density']; u = r['velocity']
+jumps = [i for i in range(len(x) - 1) if abs(p[i + 1] - p[i]) > 1e-3 * max(p[i], p[i + 1])]
+out['expansion_shock'] = False
+for i in jumps:
+    if i + 2 < len(x) and i - 1 >= 0 and abs(p[i + 2] - p[i + 1]) < 1e-6 * p[i + 1] and abs(p[i] - p[i - 1]) < 1e-6 * p[i]:
+        # isolated jump between two flat states: a shock.  Material crosses from the low-pressure side for an admissible shock.
+        W = (d[i + 1] * u[i + 1] - d[i] * u[i]) / (d[i + 1] - d[i]) if d[i + 1] != d[i] else 0.0
+        crosses_from_left = (u[i] - W) > 0
+        rises = (p[i + 1] > p[i] and d[i + 1] > d[i]) if crosses_from_left else (p[i] > p[i + 1] and d[i] > d[i + 1])
+        if not rises: out['expansion_shock'] = True
+print(json.dumps(dict(out, reproduced=bool(bad or out['expansion_shock']))))
+"""
+
+MADER_REF = 'exactpack/solvers/mader/rarefaction.py::rare'
+MADER_NATIVE = r"""
+import json
+from exactpack.solvers.mader.rarefaction import rare
+P = %(pt)r; q = %(q)r; kind = %(kind)r
+def f(xlab): return dict(zip(('u', 'p', 'c', 'rho'), rare(P['time'], xlab, P['dx'], P['p_cj'], P['d_cj'], 3.0, P['u_piston'])[:4]))
+D = P['d_cj']; ucj = D / 4; ccj = 3 * D / 4; K = 1 + (P['u_piston'] - ucj) / ccj; rcj = 16 * P['p_cj'] / (3 * D ** 2)
+const = dict(u=P['u_piston'], p=P['p_cj'] * K ** 3, c=ccj * K, rho=rcj * K)
+x2 = D * P['time'] - P['xlab'] + P['dx'] / 2; A2 = x2 / (2 * ccj * P['time']) + (2 - 2 * ucj / ccj) / 4
+edge = dict(u=2 * x2 / (4 * P['time']) - D / 4, p=P['p_cj'] * A2 ** 3, c=ccj * A2, rho=rcj * A2)
+v = f(P['xlab'])[q]; sc = max(abs(v), abs(const[q]), 1e-300); tol = 1e-9 * sc
+if kind == 'ge_const': bad = v < const[q] - tol
+elif kind == 'eq_const': bad = abs(v - const[q]) > tol
+elif kind == 'le_edge': bad = v > edge[q] + tol
+elif kind == 'pos': bad = not v > 0
+else:
+    h = 1e-6 * P['dx']; bad = f(P['xlab'] + h)[q] - f(P['xlab'] - h)[q] > 1e-6 * sc
+print(json.dumps({'reproduced': bool(bad), 'value': v, 'constant_state': const[q], 'fan_value_at_cell_edge': edge[q], 'point': P}))
+"""
+
+
+def unit_mader():
+    """rare() of the Mader solver at the documented gamma = 3 (b = 3, d = 1: the cell averages are polynomials): every branch under contract."""
+    from vc import extract
+    res = {'obligations': [], 'functions': [], 'engine_errors': []}; O = res['obligations']
+    fv = R.func_ref(MADER_REF); res['functions'].append({'ref': MADER_REF, 'sha256_16': R.source_hash(fv)})
+    t, x, dx, p, d, up = sp.symbols('time xlab dx p_cj d_cj u_piston', real=True)
+    ucj = d / 4; ccj = 3 * d / 4
+    # admissible: positive time, cell width, CJ pressure and speed; piston between the escape speed and the CJ particle speed (K > 0, fan not overdriven)
+    hy = [t > 0, dx > 0, p > 0, d > 0, up > -d / 2, up <= d / 4]
+    try:
+        paths = extract.run_function(MADER_REF, [t, x, dx, p, d, sp.Integer(3), up], hyps=hy)
+    except Unsupported as u_:
+        O.append(core.Obl('C17/mader/extraction', 'open', 'extraction', 0.0, detail='extraction: %s' % u_)); return res
+    aa = 1 / (2 * ccj * t); bb = (2 - 2 * ucj / ccj) / 4; A = lambda z: aa * z + bb
+    um = (2 * ucj - 2 * ccj) / 4; xp = 2 * t * (up - um); xdet = d * t - x; x1 = xdet - dx / 2; x2 = xdet + dx / 2
+    K = 1 + (up - ucj) / ccj; rcj = sp.Rational(16, 3) * p / d ** 2
+    const = dict(u=up, p=p * K ** 3, c=ccj * K, rho=rcj * K)
+    edge = dict(u=2 * x2 / (4 * t) + um, p=p * A(x2) ** 3, c=ccj * A(x2), rho=rcj * A(x2))
+    dist = sp.Abs(xdet - xp)
+    kinds = {'const': 0, 'transition': 0, 'fan': 0}
+    spec = {'transition': dist <= dx / 10, 'fan': sp.And(dist > dx / 10, xdet > xp), 'const': sp.And(dist > dx / 10, xdet <= xp)}      # the documented partition (tail of the Taylor wave at xp)
+    for pi_, pa in enumerate(paths):
+        if pa.outcome != 'return':
+            O.append(core.structural('C17/mader/raises', False, 'rare() raises %s under %s' % (pa.exc, pa.pc), None, 'path-analysis', 'no exception for admissible input')); continue
+        pc = list(pa.pc)
+        vals = dict(zip(('u', 'p', 'c', 'rho'), [sp.sympify(v) for v in pa.value[:4]]))
+        # every code path is checked on each part of the documented partition it can be taken in (on the unchanged tree: exactly one)
+        for br, bcond in spec.items():
+            h = hy + pc + [bcond, A(x1) > 0]
+            if not smt.feasible(h, 8000): continue
+            kinds[br] += 1
+            tag = br if kinds[br] == 1 else '%s~path%d' % (br, pi_)
+            for n, v in vals.items():
+                goals = []
+                if br == 'const': goals.append(('eq_const', sp.Eq(v, const[n]), '%s equals the constant (piston) state' % n))
+                else:
+                    goals.append(('ge_const', v >= const[n], '%s >= constant-state value' % n))
+                    goals.append(('le_edge', v <= edge[n], '%s <= fan value at the cell edge towards the front (hence <= the neighbouring fan cell)' % n))
+                    goals.append(('mono', sp.diff(v, x) <= 0, 'd %s / d x_lab <= 0 (monotone through the fan)' % n))
+                if n != 'u': goals.append(('pos', v > 0, '%s > 0' % n))
+                for kind, goal, text in goals:
+                    if kind == 'eq_const': o = core.prove_zero('C17/mader/%s/%s:%s' % (tag, n, kind), v - const[n], h, goal_text=text)
+                    else: o = core.prove_valid('C17/mader/%s/%s:%s' % (tag, n, kind), h, goal, goal_text=text)
+                    if o['status'] == 'refuted' and o.get('cex_raw'):
+                        pt = {s_.name: float(sp.sympify(o['cex_raw'].get(s_.name, 1))) for s_ in (t, x, dx, p, d, up)}
+                        o['replay'] = MADER_NATIVE % dict(pt=pt, q=n, kind=kind)
+                    o.pop('cex_raw', None); O.append(o)
+    O.append(core.structural('C17/mader/branches', all(kinds[k] == 1 for k in kinds), 'code paths per documented region: %s' % kinds, None, 'path-analysis', 'each documented region (constant state, transition cell, fan) is served by exactly one code path (vacuity / partition)'))
     return res
 
 
@@ -188,6 +299,7 @@ def units(tier):
     us = [('noh', {'kind': 'hy', 'key': 'noh'}), ('cog19', {'kind': 'hy', 'key': 'cog19'}), ('riemann/curves', {'kind': 'ri', 'pat': None, 'fam': 'curves'})]
     for pat in ('SCS', 'SCR', 'RCS', 'RCR'):
         us += [('riemann/%s/side' % pat, {'kind': 'ri', 'pat': pat, 'fam': 'side'}), ('riemann/%s/states' % pat, {'kind': 'ri', 'pat': pat, 'fam': 'states'})]
+    us.append(('mader', {'kind': 'ma'}))
     us.append(('bounded', {'kind': 'bd', 'tier': tier}))
     return us
 
@@ -195,4 +307,5 @@ def units(tier):
 def run_unit(name, kind, key=None, pat=None, fam=None, tier='quick'):
     if kind == 'hy': return unit_hydro(key)
     if kind == 'ri': return unit_riemann(pat, fam)
+    if kind == 'ma': return unit_mader()
     return unit_bounded(tier)
